@@ -282,21 +282,24 @@ def check_percentage(E, result, ref_matched, total, consumed, oblig):
 
 
 def job_recheck(E, prop, version, shape, P, K, dmg, source="ref", cpath="root", trailing_pad=False,
-                v2_single_length=True, tname=None, aligned=False, dup=False, _mutants=None, _equal_sizes=False):
+                v2_single_length=True, tname=None, aligned=False, dup=False, pinned=None, _mutants=None, _equal_sizes=False):
     if dup:
         # every file of the tree has the same bytes (identical copies): one content identity, equal sizes
         saved = cr.fid_of
         cr.fid_of = lambda shape_, rel, names=None: ("f", 0)
         try:
             return job_recheck(E, prop, version, shape, P, K, dmg, source, cpath, trailing_pad, v2_single_length, tname, aligned,
-                               dup=False, _mutants=_mutants, _equal_sizes=True)
+                               dup=False, pinned=pinned, _mutants=_mutants, _equal_sizes=True)
         finally:
             cr.fid_of = saved
     rels = SHAPES[shape]
     fs = AFS(order="reversed")
     sizes = {}
     for i, r in enumerate(rels):
-        sizes[r] = E.int("s%d" % i, 0, K * P)
+        if pinned and "s%d" % i in pinned:
+            sizes[r] = E.int("s%d" % i, pinned["s%d" % i], pinned["s%d" % i])       # a fixed size (renders as ordinary text)
+        else:
+            sizes[r] = E.int("s%d" % i, 0, K * P)
     E.note("shape", shape)
     total = 0
     for s in sizes.values():
